@@ -147,6 +147,56 @@ JP runC16(uint64_t runSeed, int64_t runIdx, const TierCfg &cfg) {
             stop = true;
         }
     }
+    // Allocation faults (sampled indices).  On the unchanged tree every such execution crashes and is ignored
+    // (see judgeC16); a tree that handles the failure is held to the error-return clause.
+    {
+        int64_t n = 0;
+        {
+            ExecReport rep0 = simExec(base, true);
+            n = rep0.heap.allocCount;
+        }
+        std::set<int64_t> idx;
+        int want = cfg.tier == "thorough" ? 36 : 14;
+        for (int64_t i = 1; i <= 4 && i <= n; i++) idx.insert(i);
+        for (int64_t i = n; i > n - 4 && i >= 1; i--) idx.insert(i);
+        while ((int64_t)idx.size() < std::min<int64_t>(want, n)) idx.insert(rng.range(1, n));
+        for (int64_t i : idx) {
+            if (stop) break;
+            Case c = base;
+            c.knobs = HeapKnobs::draw(rng);
+            c.knobs.capacity = 0;
+            c.fillSeed = rng.u64();
+            c.op.fault.kind = rng.chance(0.7) ? F1_NTH : F2_FROM_NTH;
+            c.op.fault.n = i;
+            ExecReport rep = simExec(c, true);
+            st.execs++;
+            chain.add(rep.res.digest());
+            chain.add(rep.heap.log.h);
+            for (int k = 1; k < F_KINDS; k++) st.fired[k] += rep.heap.fired[k];
+            if (rep.heap.failed > 0) {
+                st.faultedExecs++;
+                if (rep.res.status != CALL_RETURNED)
+                    probes.insert("fault.crash-or-abort(outside-the-clause)");
+                else if (rep.res.rc != 0)
+                    probes.insert(std::string("fault.error-return:") + h3ErrorName(rep.res.rc));
+                else
+                    probes.insert("fault.success-despite-failed-allocation");
+            }
+            std::vector<Verdict> vs = judgeC16(c, ref, rep);
+            if (!vs.empty()) {
+                const Verdict &v = vs[0];
+                viol = JVal::obj();
+                viol->set("property", "C16");
+                viol->set("class", v.oracle);
+                viol->set("fn", FN_NAMES[c.op.fn]);
+                viol->set("detail", v.detail + " [under " + c.op.fault.brief() + "]");
+                viol->set("site", symName(v.site));
+                viol->set("case", c.toJson());
+                violations->push(viol);
+                stop = true;
+            }
+        }
+    }
     line->set("hash", hex64(chain.h));
     st.toJson(*line);
     JP pa = JVal::arr();
